@@ -13,13 +13,13 @@ P = {
     "claimed": True,
     "coq_targets": ["Properties/C16.vo", "Run/Eval_C16.vo"],
     "theorems_module": "Properties.C16",
-    "theorems": ["C16_system_claims_win", "C16_exp_is_ttl_later", "C16_load_accepts_exactly_usable",
+    "theorems": ["C16_system_claims_win", "C16_exp_is_ttl_later", "C16_load_accepts_exactly_usable", "C16_load_never_panics",
                  "C16_header_names_active_key", "C16_token_verifies_against_published", "C16_jwks_public_only",
-                 "C16_run_meets_spec", "C16_F1_refuted", "C16_nonvacuous",
+                 "C16_run_meets_spec", "C16_run_meets_spec_repaired", "C16_F1_refuted", "C16_nonvacuous",
                  "C16_consistent_pair", "C16_sign_sees_one_load", "C16_torn_skeleton_refuted"],
     "streams": [{
         "name": "histories", "pkg": _PKG, "test": "TestVerifC16",
-        "overlay": _OVERLAY, "eval_module": "Run.Eval_C16", "check_term": "check",
+        "overlay": _OVERLAY, "eval_module": "Run.Eval_C16", "check_term": "check false",
         "n_quick": 600, "n_thorough": 12000, "findings": {1: "C16-F1"}, "shard": 100,
     }, {
         "name": "skeleton", "pkg": _PKG, "test": "TestVerifC16Skel",
